@@ -9,6 +9,7 @@ import (
 	"os/exec"
 	"sort"
 	"strconv"
+	"strings"
 	"sync"
 	"time"
 
@@ -40,7 +41,11 @@ func Register(property string, h Harness) {
 
 func Names(property string) []string {
 	var n []string
+	only := os.Getenv("VERIF_COOP_ONLY") // development aid: restrict to harnesses whose name contains this
 	for k := range harnesses[property] {
+		if only != "" && !strings.Contains(k, only) {
+			continue
+		}
 		n = append(n, k)
 	}
 	sort.Strings(n)
@@ -56,10 +61,10 @@ type Viol struct {
 }
 
 type ShardResult struct {
-	Stats      coop.Stats     `json:"stats"`
-	Viol       []Viol         `json:"viol"`
-	Outcomes   map[string]int `json:"outcomes"`
-	Inconclusive int          `json:"inconclusive"`
+	Stats        coop.Stats     `json:"stats"`
+	Viol         []Viol         `json:"viol"`
+	Outcomes     map[string]int `json:"outcomes"`
+	Inconclusive int            `json:"inconclusive"`
 }
 
 // runOne executes one schedule and returns the violations it produced.
